@@ -42,11 +42,27 @@ def make_traj(case):
     return t
 
 
-def exact_box(t):
+def make_traj_multi(subs):
+    """one trajectory whose frames are the (equally sized) sub-cases, each with its own unit cell"""
+    xyz = np.array([c["xyz"] for c in subs], dtype=np.float64).reshape(len(subs), -1, 3) / G
+    n = xyz.shape[1]
+    top = md.Topology()
+    ch = top.add_chain()
+    res = top.add_residue("X", ch)
+    for _ in range(n):
+        top.add_atom("C", md.element.carbon, res)
+    t = md.Trajectory(xyz.astype(np.float32), top)
+    if subs[0].get("cell"):
+        t.unitcell_lengths = np.array([[v / G for v in c["cell"]["lengths"]] for c in subs], dtype=np.float32)
+        t.unitcell_angles = np.array([c["cell"]["angles"] for c in subs], dtype=np.float32)
+    return t
+
+
+def exact_box(t, frame=0):
     uv = t.unitcell_vectors
     if uv is None:
         return None, 10
-    m = np.asarray(uv, dtype=np.float32)[0]
+    m = np.asarray(uv, dtype=np.float32)[frame]
     fr = [[Fraction(float(x)) for x in row] for row in m]
     K = 10
     for row in fr:
@@ -55,10 +71,12 @@ def exact_box(t):
     return [[int(x * (1 << K)) for x in row] for row in fr], K
 
 
-def run_case(case):
+def run_case(case, t=None, frame=0):
+    """one search on one frame; with t given: frame `frame` of that (multi-frame, per-frame cells) trajectory"""
     out = {"box": None, "K": 10, "res": None, "err": None, "cd": None}
-    t = make_traj(case)
-    out["box"], out["K"] = exact_box(t)
+    if t is None:
+        t = make_traj(case)
+    out["box"], out["K"] = exact_box(t, frame)
     c = case["c"] / G
     periodic = bool(case.get("periodic", True))
     n = t.n_atoms
@@ -67,15 +85,15 @@ def run_case(case):
             hay = case.get("hay")
             r = md.compute_neighbors(t, c, np.array(case["query"], dtype=int),
                                      None if hay is None else np.array(hay, dtype=int), periodic=periodic)
-            assert len(r) == 1
-            res = [int(x) for x in r[0]]
+            assert len(r) == t.n_frames
+            res = [int(x) for x in r[frame]]
             out["res"] = res
             hayl = list(range(n)) if hay is None else list(hay)
             q = list(case["query"])
             pairs = np.array([(i, j) for i in sorted(set(hayl)) for j in sorted(set(q)) if i != j], dtype=int).reshape(-1, 2)
             miss, spur, band = [], [], 0
             if len(pairs):
-                d = md.compute_distances(t, pairs, periodic=periodic)[0]
+                d = md.compute_distances(t, pairs, periodic=periodic)[frame]
                 dmin = {}
                 for (i, j), dd in zip(pairs.tolist(), d.tolist()):
                     if i not in dmin or dd < dmin[i][0]:
@@ -91,14 +109,14 @@ def run_case(case):
             out["cd"] = {"missing": miss[:20], "spurious": spur[:20], "band": band, "n_missing": len(miss),
                          "n_spurious": len(spur)}
         else:
-            r = md.compute_neighborlist(t, c, periodic=periodic)
+            r = md.compute_neighborlist(t, c, frame=frame, periodic=periodic)
             res = [[int(x) for x in a] for a in r]
             out["res"] = res
             miss, spur, band = [], [], 0
             if n >= 2:
                 iu = np.triu_indices(n, 1)
                 pairs = np.stack([iu[1], iu[0]], axis=1)          # (i, j) with j < i
-                d = md.compute_distances(t, pairs, periodic=periodic)[0]
+                d = md.compute_distances(t, pairs, periodic=periodic)[frame]
                 listed = np.zeros((n, n), dtype=bool)
                 for i, a in enumerate(res):
                     if len(a):
@@ -127,7 +145,15 @@ def main():
     except (ValueError, OSError):
         pass
     payload = json.load(sys.stdin)
-    outs = [run_case(c) for c in payload["cases"]]
+    outs = []
+    for c in payload["cases"]:
+        if c.get("seq") is None:
+            outs.append(run_case(c))
+        elif c.get("mode") == "traj":      # ONE trajectory with a different cell in every frame
+            t = make_traj_multi(c["seq"])
+            outs.append({"seq_out": [run_case(sub, t=t, frame=f) for f, sub in enumerate(c["seq"])]})
+        else:                              # consecutive calls in one process, one single-frame trajectory each
+            outs.append({"seq_out": [run_case(sub) for sub in c["seq"]]})
     print(json.dumps({"out": outs}))
 
 
